@@ -308,3 +308,16 @@ func LineKeepPrefix(r *bufio.Reader) (string, error) {
 		}
 	}
 }
+
+// silent:DL a loop counted by the length of the slice it appends to.
+func ReadNAppend(r *bufio.Reader, n int) ([]string, error) {
+	var out []string
+	for len(out) < n {
+		line, err := r.ReadString('\n')
+		if err != nil {
+			return nil, err
+		}
+		out = append(out, line)
+	}
+	return out, nil
+}
